@@ -176,10 +176,13 @@ fn bits_and_sign(t: &RustType) -> (u8, bool) {
 /// C15 on the compiled code, both bounds given (the case the contract is claimed for; an absent lower bound is KF-C15-min):
 /// the chosen type holds every permitted value and no narrower type of the same signedness class does.  complete (loop free).
 #[kani::proof]
+#[kani::unwind(3)]
 fn inttype_fixed_both_bounds() {
     let (min, max): (i64, i64) = (kani::any(), kani::any());
     kani::assume(min <= max);
-    let t = asn_fixed_integer_to_rust_type(&Integer::with_range(Range(Some(min), Some(max), false)));
+    let int = Integer::with_range(Range(Some(min), Some(max), false));
+    let t = asn_fixed_integer_to_rust_type(&int);
+    core::mem::forget(int); // no drop glue (RustType is a recursive type)
     assert!(holds(&t, min as i128) && holds(&t, max as i128));
     let (bits, signed) = bits_and_sign(&t);
     assert!(bits != 0);
@@ -190,17 +193,22 @@ fn inttype_fixed_both_bounds() {
         let (lo, hi): (i128, i128) = if signed { (-(1i128 << (half - 1)), (1i128 << (half - 1)) - 1) } else { (0, (1i128 << half) - 1) };
         assert!(!((min as i128) >= lo && (max as i128) <= hi));
     }
+    core::mem::forget(t);
 }
 
 /// extensible ranges map to 64-bit types; I64 iff a negative value is permitted (lower bound given)
 #[kani::proof]
+#[kani::unwind(3)]
 fn inttype_extensible() {
     let (min, max): (i64, i64) = (kani::any(), kani::any());
     kani::assume(min <= max);
-    let t = asn_extensible_integer_to_rust(&Integer::with_range(Range(Some(min), Some(max), true)));
+    let int = Integer::with_range(Range(Some(min), Some(max), true));
+    let t = asn_extensible_integer_to_rust(&int);
+    core::mem::forget(int);
     let (bits, signed) = bits_and_sign(&t);
     assert!(bits == 64);
     assert!(signed == (min < 0));
+    core::mem::forget(t);
 }
 
 /// C06: Charset::is_valid == the alphabets of X.680 clause 41 for ALL chars (complete, loop free)
